@@ -19,7 +19,7 @@ def lex(text):
 CLAIMED = {
  'C01': lex('Maximal munch / first-rule priority / rewind: item kind, rule id and lexeme of every next() call equal the reference tokenisation, on curated rewind definitions (incl. the quoted counterexample) and seeded random rule sets with shared prefixes.'),
  'C02': lex('Single-rule lexers over bounded-exhaustive small regex trees, operator-law pairs and random trees: the token length on every input equals the longest prefix in the documented language (so accept/reject of every string up to N is decided).'),
- 'C03': lex('Multi-rule-set definitions with switch / switch_and_return / dynamic decisions: the item is one the active rule set produces and after every call __state == __initial_state == the entry state the real `switch` assigns to the rule set the reference is in.'),
+ 'C03': lex('Multi-rule-set definitions with switch / switch_and_return / dynamic decisions: the item is one the active rule set produces (every action in the implementation's own log belongs to the rule set active when it ran; a wrong item that another rule set would produce counts as entering the wrong rule set; a user error does not change the rule set) and after every call __state == __initial_state == the entry state the real `switch` assigns to the rule set the reference is in.'),
  'C04': lex('Rules with right contexts of every shape (multi-character literals, sets, repetition, nullable, `$`): match iff the context matches the following input, lexeme/locations exclude the context, failed contexts fall through; a context the macro cannot compile is reported as a violation.'),
  'C05': lex('End-of-input protocol: `$` only at the end and zero-width, preferred over the same lexeme without it, None in Init at a boundary, error elsewhere, done flag absorbing, no character dropped (input position after each call equals the reference).'),
  'C06': lex('All Loc values of tokens, action invocations (match_loc) and the post-call match start/end equal the reference scan (newline, tab=4, uninterpreted display width, UTF-8 length) from a symbolic start location, incl. after rewinds.'),
@@ -27,8 +27,8 @@ CLAIMED = {
  'C08': lex('After a failure: input position, empty match, rule set Init in both __state and __initial_state, user state untouched - the post-state is the Init boundary state, so by induction all later calls are the reference from there.'),
  'C09': lex('No panic / overflow / unreachable on any path of next() (compiler-inserted checks are real assertions in MIR), every path terminates within the step bound, the saved match is cleared, every call accounts for input or the single end-of-input event.'),
  'C10': lex('Action log (rule id, match_loc, peek) equals the reference for every decision history (return / continue / reset+continue / switch / switch_and_return / Ok / Err chosen by solver variables), one invocation per selected match, none for abandoned candidates, sugar forms as their desugaring, user state touched only by actions.'),
- 'C14': lex('Constructor equivalence: the four real constructors (generated wrappers + lexgen_util) are executed on the same symbolic character sequence and equal user state; every field except `input` is decided equal (structurally / by z3) and equal to the initial boundary state B(Init, Loc::ZERO) from which the shared `next()` MIR (generic over the iterator type) is covered by the one-step results.'),
- 'C15': lex('Clone: at every boundary state reached by one call from every start boundary state (all paths; after tokens, errors, switches, None/done) the real derived Clone code of the generated struct and of lexgen_util::Lexer is executed and the clone is decided structurally equal to the original and the original unchanged; with value semantics and no shared state equal states give equal, independent streams.'),
+ 'C14': lex('Constructor equivalence: the four real constructors (generated wrappers + lexgen_util) are executed on the same symbolic character sequence and equal user state; every field except `input` is decided equal (structurally / by z3) and equal to the initial boundary state B(Init, Loc::ZERO) from which the shared `next()` MIR (generic over the iterator type) is covered by the one-step results. Because the runtime reads `input`, each definition is also explored for one call from every boundary state constructed from &str (symbolic string) and from an iterator; a disagreement with the reference that only one of the two shows is reported, and replayed natively through all four constructors.'),
+ 'C15': lex('Clone: at every boundary state reached by one call from every start boundary state (all paths; after tokens, errors, switches, None/done) the real derived Clone code of the generated struct and of lexgen_util::Lexer is executed and the clone is decided structurally equal to the original and the original unchanged; Independence is also checked behaviourally: original and clone are driven over the same symbolic tail (alternately; and, when clone()/next() touch state outside the lexer value - Rc, thread-locals, static atomics are modelled in the state -, with the original running to the end first) and must yield equal items and equal action logs (rule, match_loc, peek). If such state is touched and the solver does not decide, the check is inconclusive.'),
  'C11': dict(
    text='Bounded symbolic execution of the real MIR of RangeMap::insert / insert_ranges / remove_ranges / Range::contains from an ARBITRARY valid map (inductive step), every path decided by z3 for all end points, values and code points; maps of at most K ranges (K=3 quick, 4 thorough); plus class expressions end to end (regex_to_range_map, code generation) through one-character lexers for curated and random expressions over overlapping / nested sets, `_`, built-ins, `|` and chained `#`.',
    note='Trusted: rustc MIR dump, the MIR executor (validated on every run against the natively compiled functions on concrete cases), z3, summaries of the std items called (Vec push/extend/iterators, cmp::min/max, Ord::cmp, RangeInclusive accessors, checked +/-). Outside the claim: maps with more than K ranges.',
